@@ -667,7 +667,7 @@ func oracleC19(w *h.Worker, b *h.Built, inst string, st *trie.SlimTrie, u *input
 func runC19(r *h.Run) {
 	p := defaultProfile()
 	p.needQs = false
-	p.encsSmall = []string{"String16"}
+	p.encsSmall = []string{"String16", "VarEncH"}
 	p.shortQuick = []int{2, 3, 4}
 	// String() is two orders of magnitude more expensive than a lookup: the
 	// variable part under scaffolds is one key smaller than in C01
